@@ -223,14 +223,26 @@ pub fn run_case(ctx: &mut Ctx, idx: u64) {
     let rounds = if ctx.slow() { 1 } else { 3 };
     let mut all_recs: Vec<OpRec> = Vec::new();
     for round in 0..rounds {
-        let fresh: crate::pma::Pma<u32> = match round % 3 {
-            0 => match build_case(&case, spec) {
-                Ok(x) => x,
-                Err(_) => return,
+        // `fresh` is shared by the threads; `reference` is a second object obtained the same way,
+        // searched sequentially beforehand: the baseline of a round comes from the same source as
+        // its shared automaton (so that a defect of clone / deserialisation, which C09 decides, is
+        // not reported here) but never from the shared object itself
+        let (fresh, reference): (crate::pma::Pma<u32>, crate::pma::Pma<u32>) = match round % 3 {
+            0 => match (build_case(&case, spec), build_case(&case, spec)) {
+                (Ok(x), Ok(y)) => (x, y),
+                _ => return,
             },
-            1 => p.clone(),
-            _ => unsafe { crate::pma::Pma::<u32>::deserialize(spec.variant, &bytes).0 },
+            1 => (p.clone(), p.clone()),
+            _ => unsafe { (crate::pma::Pma::<u32>::deserialize(spec.variant, &bytes).0, crate::pma::Pma::<u32>::deserialize(spec.variant, &bytes).0) },
         };
+        if reference.kind() != kind {
+            ctx.rep.count("reference_automaton_changed_kind", 1);
+            continue;
+        }
+        let baseline: Vec<Vec<M<u32>>> = ops
+            .iter()
+            .map(|&(m, hi)| reference.search(m, &case.haystacks[hi], usize::MAX, loose_budget(case.haystacks[hi].len(), ns)).0)
+            .collect();
         ctx.rep.note("fresh_automaton_sources", ["rebuilt", "cloned", "deserialized"][round % 3]);
         let plans: Vec<Vec<usize>> = (0..threads).map(|_| (0..ops_per_thread).map(|_| rng.usize_below(ops.len())).collect()).collect();
         let ticket = AtomicU64::new(0);
@@ -297,7 +309,7 @@ pub fn run_case(ctx: &mut Ctx, idx: u64) {
             }
         }
         let after = fresh.serialize();
-        if after != bytes {
+        if after != reference.serialize() {
             ctx.rep.violation(
                 "purity",
                 "concurrent searching modified the shared automaton".into(),
